@@ -174,6 +174,25 @@ def run(R, only=None):
             steps.append({"sql": "insert into c values " + ", ".join("(" + ", ".join(c02.lit(v) for v in r) + ")" for r in c_rows)})
         steps += [{"explain": sql, "optimize": False}, {"explain": sql}, {"sql": sql}]
         cases.append({"engine": R.rng.choice(["mem", "disk"]), "steps": steps, "sql": sql, "tags": tags})
+    # tables with primary keys (ordered inputs: merge joins, sort aggregation, elided ORDER BY)
+    for i in range(60 if R.tier == "quick" else 600):
+        rng = R.rng
+        keys_p = rng.sample(range(1, 20), rng.randint(0, 6))
+        keys_q = rng.sample(range(1, 20), rng.randint(0, 6))
+        sql = rng.choice([
+            "select k from p where k in (select k from q)", "select k from p where k not in (select k from q)",
+            "select k from p where exists (select * from q where q.k = p.k)", "select k from p where not exists (select * from q where q.k = p.k)",
+            "select p.k, q.w from p join q on p.k = q.k", "select p.k, q.w from p left join q on p.k = q.k", "select p.k, q.w from p full join q on p.k = q.k",
+            "select k, count(*) from p group by k", "select k, v from p order by k", "select k from p where k > 3 and k in (select k from q where w > 0)",
+            "select p.k from p join q on p.k = q.k where q.w > 1 order by p.k limit 2", "select v, count(*) from p group by v order by v",
+        ])
+        steps = [{"sql": "create table p(k int primary key, v int)"}, {"sql": "create table q(k int primary key, w int)"}]
+        for nm, ks in (("p", keys_p), ("q", keys_q)):
+            for part in (ks[: len(ks) // 2], ks[len(ks) // 2:]):
+                if part:
+                    steps.append({"sql": f"insert into {nm} values " + ", ".join(f"({k}, {k % 3})" for k in part)})
+        steps += [{"explain": sql, "optimize": False}, {"explain": sql}, {"sql": sql}]
+        cases.append({"engine": rng.choice(["disk", "disk", "mem"]), "steps": steps, "sql": sql, "tags": {"pk-tables"}})
     outs = run_harness("sql", [{"engine": c["engine"], "steps": c["steps"]} for c in cases], jobs=16)
     terms, usable, kinds = [], [], {}
     unparsed = rejected = 0
